@@ -78,6 +78,27 @@ def read_replay(path):
     return doc["property"], ast.literal_eval(doc["case_repr"])
 
 
+def confirm(mod, case):
+    """second execution of a recorded case: alone first - in a forked child, so that the attempt leaves nothing behind in this
+    process - and, if that does not reproduce it, together with the history of the worker process that found it"""
+    from . import par
+    try:
+        again = par.in_forked_child(lambda: mod.replay(case))
+    except Exception:                                        # noqa: BLE001
+        traceback.print_exc()
+        again = None
+    if again:
+        return again
+    try:
+        again = par.in_forked_child(lambda: par.replay_history(case))
+    except Exception:                                        # noqa: BLE001
+        traceback.print_exc()
+        again = None
+    if again:
+        case["explanation"] = "%s [%s]" % (case.get("explanation"), again)
+    return again
+
+
 def main(argv=None):
     ap = argparse.ArgumentParser(prog="check")
     ap.add_argument("prop")
@@ -103,7 +124,7 @@ def main(argv=None):
             if p2 != prop:
                 print("replay file is for %s" % p2)
                 return 2
-            v = mod.replay(case)
+            v = confirm(mod, case)
             if v:
                 print("replayed: still violates - %s" % v)
                 print("VIOLATION property=%s replay=%s" % (prop, args.replay))
@@ -138,11 +159,7 @@ def main(argv=None):
         seen_classes.add(klass)
         if printed >= MAX_PRINT:
             continue
-        try:
-            again = mod.replay(case)
-        except Exception:                                    # noqa: BLE001
-            traceback.print_exc()
-            again = None
+        again = confirm(mod, case)
         if not again:
             # e.g. a violation that depends on what the exploring process had executed before; it is reported, but
             # never as a VIOLATION line, and it only decides the exit status if nothing else could be confirmed
